@@ -55,12 +55,31 @@ def message_types(prog):
     return out
 
 
+import structsym as _structsym
+
+
+class TokMachine(_structsym.StructMachine):
+    """token machine with the struct machine's wider Rust subset (Vec/Option/closure/string methods)"""
+
+    def __init__(self, prog, N, unroll=None, cap_scale=None):
+        _structsym.StructMachine.__init__(self, prog, K=2)
+        Machine.__init__(self, prog, N, unroll=unroll, cap_scale=cap_scale)
+        self.K = 2
+        self.counter = 0
+        self.constraints = []
+        self.leaves = []
+        self.deser_inputs = []
+        self.CASE_LEN = 8
+        self.bounds_used = set()
+        self.type_tags = {}
+
+
 class Layout:
     """Symbolic run of parse_from_block4 + to_mt_string for one message type."""
 
     def __init__(self, prog, ty, N, unroll=None, cap_scale=None, tags=None):
         self.prog, self.ty, self.N = prog, ty, N
-        self.m = Machine(prog, N, unroll=unroll, cap_scale=cap_scale)
+        self.m = TokMachine(prog, N, unroll=unroll, cap_scale=cap_scale)
         m = self.m
         m.field_tags = tags if tags is not None else field_tags(prog)[0]
         fn = prog.method(ty, "parse_from_block4", prefer_inherent=False)
